@@ -462,6 +462,9 @@ def examine(ctx, b, name, text, exp_src, cfgs, idx, gen_file=None, model_exe=Non
                 break
             if ref is None:
                 ref = (rc, snap, out, cfg)
+                if tool == "exp2python" and rc == 0 and model_exe and len(ctx._disagree) < 3:
+                    for d in pymodule_predictions(ctx, b, model_exe, exp_abs, snap):
+                        ctx._disagree.append((name, d))
                 if tool == "exp2cxx" and rc == 0 and gen_file is not None and model_exe:
                     for d in predictions(ctx, b, model_exe, gen_file, exp_abs, snap):
                         ctx._disagree.append((name, d))
@@ -621,6 +624,88 @@ def alone_clause(ctx, b, name, gen_file, root_idx):
     shutil.rmtree(root, ignore_errors=True)
 
 
+def pymodule_predictions(ctx, b, model_exe, exp_abs, snap):
+    """the ORDER of the definitions in each Python module exp2python wrote (classes of defined types and entities, ENUMERATION /
+    SELECT / aggregate assignments, aliases) vs `PyModule.order` on the schema's symbol table as the real parser built it
+    (definition order + names in, dictionary walks computed by the model); for files printed in one pass"""
+    tabs = G.symbol_tables_from_dump(b, exp_abs)
+    if not tabs:
+        return []
+    lines, names = [], []
+    for sn, toks in tabs:
+        if f"{sn}.py" in snap:
+            lines.append("pymodule " + " ".join(toks)); names.append(sn)
+    if not lines:
+        return []
+    rc, out, err = G.run_driver(model_exe, lines + [l.replace("pymodule", "pymodule-late", 1) for l in lines])
+    if rc != 0 or len(out) != 2 * len(lines):
+        return [f"pymodule: driver rc={rc} {err[-200:]}"]
+    dis = []
+    for sn, o, o_late, ln in zip(names, out[:len(lines)], out[len(lines):], lines):
+        txt = snap[f"{sn}.py"].decode("latin-1")
+        real = [m.group(1) or m.group(2) or m.group(3) for m in re.finditer(r"(?m)^class (\w+)\(|^(\w+) = |^def (\w+)\(", txt)]
+        real = [x for x in real if x not in ("schema_name", "schema_scope")]
+        want = o[2:].split() if o.startswith("M ") else None
+        ctx.hist("predictions", "definition order of the Python module" + (" (10+ definitions)" if len(real) >= 10 else ""))
+        same = lambda w: w is not None and [x.rstrip("_") for x in w] == [x.rstrip("_") for x in real]
+        if not same(want) and ":^" in ln and same(o_late[2:].split() if o_late.startswith("M ") else None):
+            # a type renames a type of ANOTHER schema that is printed later: it waits in the first loop in vain and is written by the second
+            ctx.hist("predictions", "definition order of the Python module: an original in a schema printed later")
+            continue
+        if want is None or [w.rstrip("_") for w in want] != [x.rstrip("_") for x in real]:
+            w = want or []
+            i = next((i for i in range(min(len(w), len(real))) if w[i].rstrip("_") != real[i].rstrip("_")), min(len(w), len(real)))
+            dis.append(f"definition order in {sn}.py differs from PyModule.order at position {i}: exp2python {real[i:i+4]} vs model {w[i:i+4]} ({len(real)} vs {len(w)} definitions)")
+    return dis
+
+
+def iteration_clause(ctx, b, model_exe, quick):
+    """"DICTdo visits every entry exactly once, in the order the model computes" put to the real libexpress across the
+    expansion points of the hash table (first split at 1535 entries, then every 1536; the 256th at 393216 entries): a schema of
+    N entities is parsed and resolved by the real library (harness h_exprdump) and its dictionary walked; the names must be a
+    permutation of the declared ones and, up to 20000, come in exactly the order `ExpressHash.dictOrder` gives."""
+    sizes = [1, 255, 1534, 1535, 1536, 1537, 3071, 3072, 4700] + ([] if quick else [20000, 393215, 393216, 400000])
+    exe = G.build_exprdump(b)
+    root = os.path.join(ctx.work, "iter")
+    os.makedirs(root, exist_ok=True)
+    for n in sizes:
+        if len(ctx.violations) >= 3:
+            break
+        names = [f"e{i}" for i in range(n)] if n > 4700 else [f"ent_{(i * 7919) % 100003}_{i % 13}" for i in range(n)]
+        p = os.path.join(root, f"n{n}.exp")
+        with open(p, "w") as fh:
+            fh.write("SCHEMA iter_probe;\n" + "".join(f"ENTITY {x}; END_ENTITY;\n" for x in names) + "END_SCHEMA;\n")
+        try:
+            r = subprocess.run([exe, p], capture_output=True, text=True, errors="replace", env=b.env(), timeout=600)
+            rc, out = r.returncode, r.stdout
+        except subprocess.TimeoutExpired:
+            rc, out = "timeout", ""
+        ctx.count(1, key=("iter", n))
+        ctx.hist("iteration", f"dictionary of {n} entries walked by the real DICTdo")
+        got = [l.split()[1] for l in out.splitlines() if l.startswith("ent ")]
+        what = None
+        if rc != 0:
+            what, key = f"the parser/resolver ends with status {rc} on a schema of {n} entities (a smaller one is accepted): the walk over the dictionary does not survive", ("dictionary-of-393216-or-more-entries" if n >= 393216 else "libexpress:dictionary-walk-fails")
+        elif sorted(got) != sorted(names):
+            miss, dup = sorted(set(names) - set(got))[:5], sorted({x for x in got if got.count(x) > 1})[:5] if n <= 5000 else []
+            what, key = f"DICTdo over a dictionary of {n} entries delivers {len(got)} ({len(set(got))} distinct): missing {miss}, twice {dup}", "libexpress:dictionary-walk-incomplete"
+        elif n <= 20000:
+            rc2, mo, _ = G.run_driver(model_exe, ["order " + " ".join(names)])
+            if rc2 != 0 or not mo or mo[0] != "O " + " ".join(got):
+                want = mo[0][2:].split() if mo else []
+                i = next((i for i in range(min(len(want), len(got))) if want[i] != got[i]), min(len(want), len(got)))
+                ctx._disagree.append((f"iteration-{n}", f"DICTdo order of {n} entries differs from ExpressHash.dictOrder at position {i}: real {got[i:i+3]} vs model {want[i:i+3]}"))
+            else:
+                ctx.hist("iteration", "order equals ExpressHash.dictOrder" + (" (expanded table)" if n >= 1535 else ""))
+        if what:
+            ctx.violation(key, f"[iteration-{n}] {what}",
+                          {"express": f"SCHEMA iter_probe; ENTITY {names[0]}; END_ENTITY; ... ENTITY {names[-1]}; END_ENTITY; END_SCHEMA;   -- {n} entities named " +
+                                      ("e0 .. e%d" % (n - 1) if n > 4700 else "ent_<(i*7919) mod 100003>_<i mod 13> for i in 0..%d" % (n - 1)),
+                           "tool": "any libexpress tool (check-express, exp2cxx, exppp, exp2python); here harness/h_exprdump.c = EXPRESSparse + EXPRESSresolve + DICTdo",
+                           "how": "write the schema with the stated number of one-line entities, run the tool: exit status / list the entities the dictionary walk delivers"})
+        os.remove(p)
+
+
 def run(ctx):
     quick = ctx.tier == "quick"
     ctx._disagree = []
@@ -650,12 +735,13 @@ def run(ctx):
     ctx.hist("matrix", "setarch -R available" if setarch else "setarch -R NOT available (ASLR-off runs skipped)")
     cfgs = configs(quick, setarch)
     idx = 0
+    iteration_clause(ctx, b, model_exe, quick)
     # corpus / fixed inputs first: the confirmed defect (DESIGN §6 row 9) on a minimal schema
     fixed = [("min-nonliteral-bound", MIN_BOUND), ("all-bound-shapes-text", ALL_BOUNDS), ("non-ascii-strings-near-line-limit", non_ascii_strings_schema())]
     for p in sorted(glob.glob(os.path.join(VERIF, "corpus", "C12", "*.exp"))):
         fixed.append(("corpus:" + os.path.basename(p), open(p).read()))
     for name, text in fixed:
-        examine(ctx, b, name, text, None, cfgs, idx, tools=TOOLS); idx += 1
+        examine(ctx, b, name, text, None, cfgs, idx, model_exe=model_exe, tools=TOOLS); idx += 1
     allb = SG.every_bound_shape_schema()
     examine(ctx, b, "every-bound-shape", allb.text(), None, cfgs, idx, gen_file=allb, model_exe=model_exe); idx += 1
     allk = SG.every_type_kind_schema()
@@ -678,7 +764,7 @@ def run(ctx):
     for j, (nu, nr, ren) in enumerate(shapes):
         itf = SG.item_interfaces_file(nu, nr, ren)
         ctx.hist("features", "item-wise USE/REFERENCE from several suppliers")
-        examine(ctx, b, f"item-wise-interfaces-{nu}use-{nr}ref{'-renamed' if ren else ''}", itf.text(), None, cfgs, idx); idx += 1
+        examine(ctx, b, f"item-wise-interfaces-{nu}use-{nr}ref{'-renamed' if ren else ''}", itf.text(), None, cfgs, idx, model_exe=model_exe); idx += 1
         rroot = os.path.join(ctx.work, f"ro{j}")
         os.makedirs(rroot)
         for d in refout_predictions(ctx, b, model_exe, itf, rroot):
@@ -689,7 +775,7 @@ def run(ctx):
             r = ctx.rng
             nm = r.sample(["alpha", "beta", "gamma", "delta", "kappa", "omega", "sigma", "theta", "zeta", "lambda_s"], 6)
             itf = SG.item_interfaces_file(r.randint(2, 3), r.randint(2, 3), r.random() < 0.5, names=[f"{x}_supplier" for x in nm])
-            examine(ctx, b, f"item-wise-interfaces-random-{j}", itf.text(), None, cfgs, idx); idx += 1
+            examine(ctx, b, f"item-wise-interfaces-random-{j}", itf.text(), None, cfgs, idx, model_exe=model_exe); idx += 1
             rroot = os.path.join(ctx.work, f"ror{j}")
             os.makedirs(rroot)
             for d in refout_predictions(ctx, b, model_exe, itf, rroot):
@@ -712,7 +798,7 @@ def run(ctx):
     for p in shipped:
         if "fail_" in os.path.basename(p):
             continue
-        examine(ctx, b, "shipped:" + os.path.relpath(p, b.src), None, p, cfgs if os.path.getsize(p) < 2_000_000 else cfgs[:3], idx); idx += 1
+        examine(ctx, b, "shipped:" + os.path.relpath(p, b.src), None, p, cfgs if os.path.getsize(p) < 2_000_000 else cfgs[:3], idx, model_exe=model_exe); idx += 1
     ctx.cov["correspondence"]["model predictions vs exp2cxx"] = {"disagreements": len(ctx._disagree)}
     ctx.cov["rule"] = (f"{len(cfgs)} configurations ({', '.join(c.name for c in cfgs)}) x {len(TOOLS)} tools per input; whole output trees byte-compared "
                        "against the base configuration; inputs: minimal non-literal-bound schema, every bound shape, every type kind, generated schemas "
